@@ -233,16 +233,14 @@ def classify(stage: str, case: dict, opts: dict, mprog: list[str] | None, mres: 
     isM = case["kind"] == "M"
     ub = unbound_names(mprog) if mprog else []
     if stage == "export":
-        if isM and mres == "ERR:IndexError" and f["has_loop"]:
-            return "C13-FOR-MAIN"
+        # (C13-FOR-MAIN was here: fixed by e68372f — an IndexError on a Loop is a violation again)
         if opts["skip_initializers"] and f["big_nonfloat"] and mres == "ERR:NotImplementedError":
             return "C13-SKIP-RAND"
         if f["collide"] and opts["skip_initializers"] and mres == "ERR:RuntimeError":
             return "D14"
         return None
     if stage == "compile":
-        if opts["skip_initializers"] and mprog and not mprog[0].startswith("wrap "):
-            return "C13-SKIP-INDENT"
+        # (C13-SKIP-INDENT was here: fixed by 4af3eb7 — indented text without make_model is a violation again)
         if f["collide"]:
             return "D14"
         return None
@@ -502,6 +500,9 @@ def _oracle(ctx, case, opts, src, exc, mprog, mres):
                 )  # fmt: skip
         st["roundtrip_ok"] += 1
         st["roundtrip_ok_" + L.opts_str(opts)] += 1
+        for fl in case["meta"].get("flags", []):
+            if fl.startswith(("loop_", "for", "while", "if", "init")):
+                st["roundtrip_ok_with_" + fl] += 1
     finally:
         L.release(modname)
 
